@@ -62,6 +62,10 @@ type frag struct {
 type Result struct {
 	Hits []Hit
 	Open bool
+	// MapOrder is set when the evaluation walked the members of an object
+	// with two or more members (wildcard, filter, descent): the order of the
+	// hits then depends on Go's map order and only the multiset is defined.
+	MapOrder bool
 }
 
 // Select evaluates a jp.Expr; filters are decided by the expression's own
@@ -188,6 +192,12 @@ func members(h Hit) []Hit {
 	return out
 }
 
+func noteMapOrder(h Hit, r *Result) {
+	if m, ok := h.Value.(map[string]any); ok && len(m) > 1 && r != nil {
+		r.MapOrder = true
+	}
+}
+
 func apply(f frag, root any, h Hit, rest []frag, v Variant, r *Result) []Hit {
 	switch f.kind {
 	case "root":
@@ -211,6 +221,7 @@ func apply(f frag, root any, h Hit, rest []frag, v Variant, r *Result) []Hit {
 			}
 		}
 	case "wild":
+		noteMapOrder(h, r)
 		return members(h)
 	case "desc":
 		var out []Hit
@@ -218,6 +229,7 @@ func apply(f frag, root any, h Hit, rest []frag, v Variant, r *Result) []Hit {
 			var all func(n Hit)
 			all = func(n Hit) {
 				out = append(out, n)
+				noteMapOrder(n, r)
 				for _, m := range members(n) {
 					all(m)
 				}
@@ -229,6 +241,7 @@ func apply(f frag, root any, h Hit, rest []frag, v Variant, r *Result) []Hit {
 		var walk func(n Hit)
 		walk = func(n Hit) {
 			out = append(out, step(rest, root, []Hit{n}, v, r)...)
+			noteMapOrder(n, r)
 			for _, m := range members(n) {
 				walk(m)
 			}
@@ -260,6 +273,7 @@ func apply(f frag, root any, h Hit, rest []frag, v Variant, r *Result) []Hit {
 		return out
 	case "filter":
 		var out []Hit
+		noteMapOrder(h, r)
 		for _, m := range members(h) {
 			keep, det := f.match(m.Value, root)
 			if !det {
